@@ -202,7 +202,7 @@ Definition container_forms (c : Api.container) : list Api.hform :=
 # calls that the translator interprets by name: a module function of that name would be mistaken for them
 BUILTIN_NAMES = {"len", "int", "bool", "bytes", "bytearray", "ord", "iter", "sorted", "isinstance", "type", "memoryview",
                  "hex", "deque", "str", "enumerate", "range", "HeaderTuple", "NeverIndexedHeaderTuple", "HeaderTable",
-                 "HuffmanEncoder", "min", "max", "abs", "list", "tuple", "dict", "set", "repr", "print"}
+                 "HuffmanEncoder", "min", "max", "abs", "list", "tuple", "dict", "set", "repr", "print", "format"}
 # Python names that are not usable as Coq identifiers are suffixed with "_"
 RESERVED = {"match", "with", "end", "fun", "let", "in", "if", "then", "else", "return", "as", "at", "fix",
             "cofix", "forall", "exists", "Type", "Prop", "Set", "struct", "where", "for", "using", "mod"}
@@ -1097,6 +1097,19 @@ class Tr:
                     if ty != "bytes":
                         bad(n, "memoryview argument")
                     return b, t, "bytes"
+                if f.id == "format":
+                    # format(<int>, "x") and nothing else: the bare lower-case hex digits, "-" first for a negative int
+                    # (py_format_x of Prelude/PyExtra.v; unlike hex(n)[2:], whose text for n < 0 is "x...")
+                    if not (len(n.args) == 2 and not n.keywords and isinstance(n.args[1], ast.Constant)
+                            and type(n.args[1].value) is str and n.args[1].value == "x"
+                            and not isinstance(n.args[0], ast.Starred)):
+                        bad(n, "format() other than format(<int>, \"x\")")
+                    if "format" in env or "format" in fn.consts:
+                        bad(n, "format is also a variable")
+                    b, t, ty = self.E(n.args[0], env)
+                    if ty != "int":
+                        bad(n, "format(_, \"x\") of non-int")
+                    return b, f"(py_format_x ({t}))", "hex"
                 if f.id == "ord" and len(n.args) == 1:
                     b, t, ty = self.E(n.args[0], env)
                     if ty != "bytes":
@@ -1163,6 +1176,17 @@ class Tr:
                     if ty != "hex":
                         bad(n, "rstrip receiver")
                     return b, t, "hex"
+                # s.zfill(w) on a hex string (sign-aware left fill with "0": str_zfill of Prelude/PyExtra.v)
+                if f.attr == "zfill":
+                    if len(n.args) != 1 or n.keywords or isinstance(n.args[0], ast.Starred):
+                        bad(n, "zfill arguments")
+                    b, t, ty = self.E(f.value, env)
+                    if ty != "hex":
+                        bad(n, "zfill receiver")
+                    wb, w, wt = self.E(n.args[0], env)
+                    if wt != "int":
+                        bad(n, "zfill width")     # (a bool is an int in Python; here it is another type: refused)
+                    return b + wb, f"(str_zfill {t} ({w}))", "hex"
                 # d.get(k)
                 if f.attr == "get" and len(n.args) == 1:
                     db, d, dt = self.E(f.value, env)
@@ -1254,6 +1278,18 @@ class Tr:
             body = self.pure_binds(eb[:-1] if et == eb[-1][0] else eb, body)
             x = fn.tmp()
             return ib + [(x, f"traverse (fun {g.target.id} =>\n{body}) {it}")], x, ("list", ety)
+        if isinstance(n, ast.JoinedStr) and len(n.values) == 1 and isinstance(n.values[0], ast.FormattedValue) \
+                and n.values[0].conversion == -1 and isinstance(n.values[0].format_spec, ast.JoinedStr) \
+                and len(n.values[0].format_spec.values) == 1 \
+                and isinstance(n.values[0].format_spec.values[0], ast.Constant) \
+                and type(n.values[0].format_spec.values[0].value) is str \
+                and n.values[0].format_spec.values[0].value == "x":
+            # f"{<int>:x}" exactly (one field, no text around it, no conversion, the constant specification "x")
+            # is format(<int>, "x"); every other f-string stays a message (type "str": not usable as hex digits)
+            b, t, ty = self.E(n.values[0].value, env)
+            if ty != "int":
+                bad(n, "f\"{_:x}\" of non-int")
+            return b, f"(py_format_x ({t}))", "hex"
         if isinstance(n, ast.JoinedStr):
             bs = []
             for v in n.values:
@@ -1319,7 +1355,7 @@ class Tr:
                 while isinstance(base, ast.Attribute):
                     base = base.value
                 if isinstance(base, ast.Name) and base.id not in ("log", "bytes", "HeaderTable"):
-                    pure = s.func.attr in ("get", "rstrip", "startswith", "decode", "__class__")
+                    pure = s.func.attr in ("get", "rstrip", "startswith", "decode", "__class__", "zfill")
                     if isinstance(s.func.value, ast.Name) and s.func.value.id == "self" and s.func.attr in self.fn.methods:
                         pure = not self.fn.methods[s.func.attr].rw
                     elif base.id == "self" and self.method_of(s) is not None:
@@ -2645,7 +2681,12 @@ def main():
             except Unsupported as e:
                 status[key] = f"unsupported: {e}"
                 defs.append(f"(* {key}: unsupported: {e} *)")
-        write_if_changed(os.path.join(out, fname), HEADER.format(extra=extra) + "\n\n".join(defs) + "\n")
+        text = "\n\n".join(defs) + "\n"
+        if ("py_format_x" in text or "str_zfill" in text) and "Prelude.PyExtra" not in extra:
+            # format(n, "x") / s.zfill(w) are rendered by Prelude/PyExtra.v (imported only where they occur, so that
+            # the text generated for a source without them is unchanged)
+            extra = "From HV Require Import Prelude.PyExtra.\n" + extra
+        write_if_changed(os.path.join(out, fname), HEADER.format(extra=extra) + text)
 
     def find(tree, name, cls=None):
         body = tree.body
